@@ -354,3 +354,35 @@ func (a *Alphabet) HasRereadOps() bool {
 	}
 	return true
 }
+
+// sessionOpenAfter reports whether a transaction session is open after the (legal) sequence.
+func (a *Alphabet) sessionOpenAfter(seq []uint8) bool {
+	in := false
+	for _, x := range seq {
+		switch a.Ops[x].K {
+		case Begin:
+			in = true
+		case CommitTx, DiscardTx, CommitBlock, Reopen:
+			in = false
+		}
+	}
+	return in
+}
+
+// readKinds names the kinds of read ops occurring in seq, e.g. "Get+Exists".
+func (a *Alphabet) readKinds(seq []uint8) string {
+	var has [GetVersioned + 1]bool
+	for _, x := range seq {
+		has[a.Ops[x].K] = true
+	}
+	ks := ""
+	for _, k := range []Kind{Get, Exists, GetVersioned} {
+		if has[k] {
+			if ks != "" {
+				ks += "+"
+			}
+			ks += k.String()
+		}
+	}
+	return ks
+}
